@@ -140,6 +140,7 @@ def gen(rng, n):
                 if op == "div" and x == 0:
                     x = -2
                 c["x"], c["xt"] = x, typed(rng, x)
+                c["aug"] = rng.random() < 0.35      # written as an augmented assignment: I += x (same meaning)
             elif op == "round":
                 c["n"] = rng.randint(0, 12)
         else:
@@ -174,6 +175,7 @@ def gen(rng, n):
                 if abs(x) > 500:
                     x = 3.0
                 c["x"], c["xt"] = x, typed(rng, x)
+                c["aug"] = rng.random() < 0.35
             elif op == "mvo":
                 c["a"] = rng.choice([rng.uniform(-30, 30), TWO_PI, -TWO_PI, 0.0, 7.0])
         cases.append(c)
@@ -220,7 +222,17 @@ def observe(c):
             return ("b", bool(I > x))
         if op == "lt_num":
             return ("b", bool(I < x))
-        if op in ("add", "aadd"):
+        if c.get("aug") and op in ("add", "aadd", "sub", "asub", "mul", "div"):
+            r = I
+            if op in ("add", "aadd"):
+                r += x
+            elif op in ("sub", "asub"):
+                r -= x
+            elif op == "mul":
+                r *= x
+            else:
+                r /= x
+        elif op in ("add", "aadd"):
             r = I + x
         elif op in ("sub", "asub"):
             r = I - x
